@@ -226,7 +226,7 @@ impl AsmParser {
                     }
                 };
 
-                let len = if self.tok_end < tok.span.offs() {
+                let len = if self.tok_end <= tok.span.offs() {
                     tok.span.len()
                 } else {
                     self.tok_end - tok.span.offs()
